@@ -34,7 +34,8 @@ bool LegacyTimePeriod::IsInTimeRange(const tm *begin, const tm *end, int stride,
 	if (tsref < tsbegin || tsref >= tsend)
 		return false;
 
-	int daynumber = (tsref - tsbegin) / (24 * 60 * 60);
+	/* Both timestamps are local midnights: their distance is a whole number of days plus/minus a DST shift, so round. */
+	int daynumber = (tsref - tsbegin + 12 * 60 * 60) / (24 * 60 * 60);
 
 	if (stride > 1 && daynumber % stride > 0)
 		return false;
